@@ -639,12 +639,20 @@ func onlyFromCompileRollback(p *core.Program, f *ssa.Function) bool {
 		if nd == nil || len(nd.In) == 0 {
 			return false
 		}
+		real := 0
 		for _, e := range nd.In {
+			// promoted-method wrappers of embedding types that nobody calls are not callers
+			if cf := e.Caller.Func; cf.Synthetic != "" {
+				if cn := cg.Nodes[cf]; cn == nil || len(cn.In) == 0 {
+					continue
+				}
+			}
+			real++
 			if !up(e.Caller.Func, depth+1) {
 				return false
 			}
 		}
-		return true
+		return real > 0
 	}
 	return up(f, 0)
 }
